@@ -1,4 +1,4 @@
-import RtenVerif.Lemmas.GemmSem
+import RtenVerif.Lemmas.GemmImpl
 import RtenVerif.Generated.GemmConsts
 
 /-!
@@ -219,5 +219,123 @@ theorem c16_block_sizes_ok (k : BlockConsts) (elemSize : Nat)
 
 example : rowBlockSize Generated.consts 70 6 = 66 ∧ colBlockSize Generated.consts 300 16 4 = 128 ∧
     depthBlockSize Generated.consts 4 300 none = 256 := by decide
+
+/-! ## T4: the gemv fast path and `gemm_impl` end to end -/
+
+section
+variable {α : Type} [CommSemiring α] [DecidableEq α]
+
+/-- **T4.** The vector-matrix fast path (column blocks × k blocks, effective beta = caller's beta
+on the first k block and one afterwards, bias at the end of each column block) gives the same
+element-wise result as the general path (`c16_schedule_result` with `M = 1`): one un-blocked
+kernel application over `[0, K)` followed by the bias, for every `N`, `K > 0`, thread count and
+stride class of B; nothing outside row 0 / columns `< N` is touched. -/
+theorem c16_gemv_result (h1 : (1 : α) ≠ 0) (k : BlockConsts) (hcm : 0 < k.gemvColMin)
+    (hku : 0 < k.gemvKUnitRow) (hko : 0 < k.gemvKOther) {N K threads : Nat} (hK : 0 < K)
+    (rs1 : Bool) (alpha beta : α) (bias : Bias α) (A B : Nat → Nat → α) (C : OutMat α)
+    (r c : Nat) :
+    runGemv alpha beta bias A B C (gemvSchedule k N K threads rs1) r c =
+      if r = 0 ∧ c < N then
+        addBias bias 0 c (kernelElem alpha (dot A B 0 c 0 K) beta (C 0 c))
+      else C r c := by
+  by_cases hr : r = 0
+  · subst hr
+    rw [runGemv_elem]
+    by_cases hc : c < N
+    · have hkbs : 0 < (if rs1 = true then k.gemvKUnitRow else k.gemvKOther) := by
+        split <;> assumption
+      rw [gemvSchedule_filter k N K threads rs1 hcm hc, gemvBlock_fold h1 _ _ _ _ _ _ _ _ _ hK hkbs]
+      simp [hc]
+    · rw [gemvSchedule_filter_out k N K threads rs1 hc]
+      simp [hc]
+  · rw [runGemv_other_rows _ _ _ _ _ hr]
+    simp [hr]
+
+example : (gemvSchedule Generated.consts 300 600 4 true).length = 3 * (2 + 1) := by decide
+
+/-- **`gemm_impl`, top level, no unproved step.** Whenever the modelled `gemm_impl` returns `Ok`
+— through the empty-output branch, the zero-depth branch, the gemv fast path or the blocked
+general path with the block sizes computed by `col_block_size` / `row_block_size` /
+`depth_block_size` — every element of the `M × N` output is one kernel application over the
+whole depth with the caller's beta followed by the bias, and everything else is untouched. -/
+theorem c16_gemmImpl_result (h1 : (1 : α) ≠ 0) {k : BlockConsts} {kern : KernelCfg} {p : Problem}
+    (hd : 0 < k.depthBytes / kern.elemSize) (hcl : 0 < k.colLower) (hcu : 0 < k.colUpper)
+    (hrm : 0 < k.rowMax) (hcm : 0 < k.gemvColMin) (hku : 0 < k.gemvKUnitRow)
+    (hko : 0 < k.gemvKOther) (hmr : 0 < kern.mr) (hnr : 0 < kern.nr)
+    (alpha beta : α) (bias : Bias α) (A B : Nat → Nat → α) (C : OutMat α) {out : OutMat α}
+    (h : gemmImpl k kern p alpha beta bias A B C = .ok out) (r c : Nat) :
+    out r c =
+      if r < p.M ∧ c < p.N then
+        addBias bias r c (kernelElem alpha (dot A B r c 0 p.Ka) beta (C r c))
+      else C r c := by
+  unfold gemmImpl at h
+  cases hp : gemmPath k kern p with
+  | error e => rw [hp] at h; cases h
+  | ok path =>
+    rw [hp] at h
+    obtain ⟨_, hcases⟩ := gemmPath_ok hp
+    rcases hcases with ⟨rfl, hz⟩ | ⟨rfl, hM, hN, hKa⟩ | ⟨rfl, hM, hN, hKa⟩
+    · dsimp only at h
+      split at h
+      · rename_i hmn
+        cases h
+        rw [if_neg (by omega)]
+      · rename_i hmn
+        cases h
+        have hKa : p.Ka = 0 := by omega
+        by_cases hrc : r < p.M ∧ c < p.N
+        · rw [if_pos hrc, hKa]
+          simp only [zeroDepth, hrc, and_self, if_true, kernelElem, dot, sumFrom]
+          congr 1
+          by_cases hb : beta = 0
+          · simp [hb]
+          · simp only [hb, if_false]
+            cases C r c with
+            | none => rfl
+            | some x => simp [mul_comm]
+        · rw [if_neg hrc]; simp [zeroDepth, hrc]
+    · dsimp only at h
+      cases h
+      rw [c16_gemv_result h1 k hcm hku hko (by omega)]
+      by_cases hr : r = 0
+      · subst hr; simp [hM]
+      · have : ¬ r < p.M := by omega
+        simp [hr, this]
+    · dsimp only at h
+      cases h
+      obtain ⟨b1, b2, b3, b4, b5⟩ := c16_block_sizes_ok k kern.elemSize hd hcl hcu hrm
+        (M := p.M) (N := p.N) (K := p.Ka) (threads := p.threads) hmr hnr
+        (by omega) (by omega) (by omega) none
+      exact c16_schedule_result h1 hmr hnr b1 b3 b5 (by omega) b2 b4 alpha beta bias A B C r c
+
+/-- `gemm_impl` only answers `Ok` for consistent sizes (otherwise it is one of the size errors),
+and a well-formed request — consistent sizes, operands unpacked or prepacked by the same kernel —
+is never rejected. -/
+theorem c16_gemmImpl_accepts_iff_valid {k : BlockConsts} {kern : KernelCfg} {p : Problem}
+    (alpha beta : α) (bias : Bias α) (A B : Nat → Nat → α) (C : OutMat α) :
+    ((∃ out, gemmImpl k kern p alpha beta bias A B C = .ok out) →
+      p.Ka = p.Kb ∧ biasLenBad p.rowBiasLen p.N = false ∧ biasLenBad p.colBiasLen p.M = false ∧
+        p.outLen = p.M * p.N) ∧
+    (p.Ka = p.Kb → biasLenBad p.rowBiasLen p.N = false → biasLenBad p.colBiasLen p.M = false →
+      p.outLen = p.M * p.N →
+      (p.aPacked = none ∨ p.aPacked = some (prepackMeta k kern true p.Ka)) →
+      (p.bPacked = none ∨ p.bPacked = some (prepackMeta k kern false p.Kb)) →
+      ∃ out, gemmImpl k kern p alpha beta bias A B C = .ok out) := by
+  constructor
+  · rintro ⟨out, h⟩
+    unfold gemmImpl at h
+    cases hp : gemmPath k kern p with
+    | error e => rw [hp] at h; cases h
+    | ok path => exact (gemmPath_ok hp).1
+  · intro hK hb1 hb2 hol ha hb
+    obtain ⟨path, hp⟩ := gemmPath_valid hK hb1 hb2 hol ha hb
+    unfold gemmImpl
+    rw [hp]
+    cases path with
+    | none => dsimp only; split <;> exact ⟨_, rfl⟩
+    | gemv evs => exact ⟨_, rfl⟩
+    | gemm mc nc kc calls => exact ⟨_, rfl⟩
+
+end
 
 end RtenVerif.Gemm
